@@ -555,10 +555,6 @@ def classify_layout_difference(case, ra, rb):
             return 'F20'  # same (label, value) pairs, order depends on layout
     if name == 'reduce' and args[1] == 0:
         fn, skipna = args[0], args[2]
-        if rows == 1 and fn in ('mean', 'median', 'std', 'var') and 'err' in (ra[0], rb[0]):
-            return 'F17'
-        if rows == 1 and not skipna and fn in ('sum', 'prod', 'min', 'max'):
-            return 'F16'
         if ra[0] == rb[0] == 'ok' and ra[1][0] == rb[1][0] == 'Series' and ra[1][1] == rb[1][1] and _num_equal_tokens(ra[1][2], rb[1][2]):
             return 'F18'  # same values, result dtype depends on layout
         if ra[0] == rb[0] == 'err':
